@@ -72,11 +72,11 @@ class Transform(Stage):
     worker = ttr._transform_mp_worker
 
     def run_entry(self, n_items, n_workers, on_item):
-        depth = {1: 0, 5: 1}[n_items]
+        depth = {1: 0, 5: 1, 21: 2, 85: 3}[n_items]
         ttr._do_a_transform("PIO", depth, lambda: "BUF", lambda buf, pos, pin, pout: on_item(pos), parallel=n_workers)
 
     def run_serial(self, n_items, on_item):
-        depth = {1: 0, 5: 1}[n_items]
+        depth = {1: 0, 5: 1, 21: 2, 85: 3}[n_items]
         ttr._do_a_transform("PIO", depth, lambda: "BUF", lambda buf, pos, pin, pout: on_item(pos), parallel=1)
 
     def item_key(self, item):
